@@ -46,6 +46,30 @@ def _get_node_text(node: Node) -> str:
     return node.text.decode() if node.text else ""
 
 
+# Comments may sit between an item's attributes and the item itself
+_COMMENT_NODE_TYPES = ("line_comment", "block_comment")
+
+
+def _preceding_attributes(item_node: Node) -> list[Node]:
+    """Collect the attribute items directly preceding an item, skipping comments.
+
+    Args:
+        item_node: Function or module item node
+
+    Returns:
+        Attribute item nodes attached to the item (nearest first)
+    """
+    attributes: list[Node] = []
+    prev_sibling = item_node.prev_sibling
+    while prev_sibling is not None:
+        if prev_sibling.type == "attribute_item":
+            attributes.append(prev_sibling)
+        elif prev_sibling.type not in _COMMENT_NODE_TYPES:
+            break
+        prev_sibling = prev_sibling.prev_sibling
+    return attributes
+
+
 def has_test_attribute(function_node: Node) -> bool:
     """Check if a function has #[test] attribute as preceding sibling.
 
@@ -55,12 +79,7 @@ def has_test_attribute(function_node: Node) -> bool:
     Returns:
         True if function has #[test] attribute
     """
-    prev_sibling = function_node.prev_sibling
-    while prev_sibling is not None and prev_sibling.type == "attribute_item":
-        if "test" in _get_node_text(prev_sibling):
-            return True
-        prev_sibling = prev_sibling.prev_sibling
-    return False
+    return any("test" in _get_node_text(attr) for attr in _preceding_attributes(function_node))
 
 
 def has_cfg_test_attribute(mod_node: Node) -> bool:
@@ -72,12 +91,7 @@ def has_cfg_test_attribute(mod_node: Node) -> bool:
     Returns:
         True if module has #[cfg(test)] attribute
     """
-    prev_sibling = mod_node.prev_sibling
-    while prev_sibling is not None and prev_sibling.type == "attribute_item":
-        if "cfg(test)" in _get_node_text(prev_sibling):
-            return True
-        prev_sibling = prev_sibling.prev_sibling
-    return False
+    return any("cfg(test)" in _get_node_text(attr) for attr in _preceding_attributes(mod_node))
 
 
 def is_inside_test(node: Node) -> bool:
